@@ -398,7 +398,9 @@ func binDrivers(o corrOpts, sum *res.Summary, r *rng.R, bin string) {
 				}
 			}
 			inProg := func(k string) bool { return strings.HasPrefix(k, prog+"/") }
-			cmp("govet-excluded-dir ./"+prog+"/...", runKeys(runVet(bin, dir, nil, env, "./"+prog+"/..."), notTest), inProg)
+			// go vet caches facts per package under a key that includes the tool's flags but not GOGREEMENT_* variables:
+			// a junk exclude-checks token (excludes nothing) makes this configuration a key of its own
+			cmp("govet-excluded-dir ./"+prog+"/...", runKeys(runVet(bin, dir, []string{"-config.exclude-checks=ZZCACHEKEY1"}, env, "./"+prog+"/..."), notTest), inProg)
 			cmp("standalone-from-subdir "+prog, runKeys(runStandaloneAt(bin, filepath.Join(dir, prog), dir, nil, env, "./..."), notTest), inProg)
 			cmp("standalone-from-excluded-dir "+tok, runKeys(runStandaloneAt(bin, filepath.Join(dir, tok), dir, nil, env, "exp/"+prog+"/..."), notTest), inProg)
 			baseKeys = saved
@@ -429,7 +431,7 @@ func binDrivers(o corrOpts, sum *res.Summary, r *rng.R, bin string) {
 			}
 		}
 		sum.AddN("diagnostics-in-test-files-scan-tests-env", inTests)
-		cmp("govet-scan-tests-env "+sub, runKeys(runVet(bin, dir, nil, env, sub), nil), nil)
+		cmp("govet-scan-tests-env "+sub, runKeys(runVet(bin, dir, []string{"-config.exclude-checks=ZZCACHEKEY2"}, env, sub), nil), nil)
 		cmp("standalone-scan-tests-flag "+sub, runKeys(runStandalone(bin, dir, []string{"-config.scan-tests=true"}, nil, sub), nil), nil)
 		baseKeys = saved
 	}
@@ -801,6 +803,9 @@ func binWellformed(o corrOpts, sum *res.Summary, r *rng.R, bin string) {
 		lines := strings.Split(string(orig), "\n")
 		if d.Line < 1 || d.Line > len(lines) || strings.Contains(lines[d.Line-1], "//") {
 			continue // the line already carries a line comment: an appended one would merge into it
+		}
+		if d.Col == 0 || strings.Contains(string(orig), "\n//line ") {
+			continue // the position went through a //line directive: "its line" is not the physical line of that number
 		}
 		// more than one diagnostic of that code on the line: the inline comment removes all of them (allowed)
 		lines[d.Line-1] += " // @ignore " + d.Code
